@@ -7,6 +7,8 @@ pub mod enc;
 pub mod abs;
 pub mod corr;
 pub mod cx;
+#[macro_use]
+pub mod dsmodel;
 pub mod num;
 pub mod oracle;
 pub mod props;
@@ -19,6 +21,8 @@ use std::time::{Duration, Instant};
 
 fn driver(prop: &str) -> Option<(&'static str, fn(&mut Cx, &mut Rng) -> R)> {
     Some(match prop {
+        "C01" => ("C01", props::c01::case),
+        "C05" => ("C05", props::c05::case),
         "C08" => ("C08", props::c08::case),
         "C09" => ("C09", props::c09::case),
         "C10" => ("C10", props::c10::case),
